@@ -198,10 +198,18 @@ func (fc *fileCtx) walk(opt Options) {
 			if !opt.Yields {
 				break
 			}
-			lit, ok := x.Call.Fun.(*ast.FuncLit)
-			if !ok {
-				fc.fail(x.Pos(), "unsupported: `go` statement whose callee is not a function literal")
-				break
+			lit, isLit := x.Call.Fun.(*ast.FuncLit)
+			if !isLit {
+				if id, ok := x.Call.Fun.(*ast.Ident); ok {
+					if _, isBuiltin := fc.info.Uses[id].(*types.Builtin); isBuiltin {
+						fc.fail(x.Pos(), "unsupported: `go` statement calling a builtin")
+						break
+					}
+				}
+				if tv, ok := fc.info.Types[x.Call.Fun]; ok && tv.IsType() {
+					fc.fail(x.Pos(), "unsupported: `go` statement with a conversion")
+					break
+				}
 			}
 			// must sit directly in a statement list
 			parent := stack[len(stack)-2]
@@ -214,8 +222,15 @@ func (fc *fileCtx) walk(opt Options) {
 			v := fmt.Sprintf("gcsimT%d", goIdx)
 			fc.site("go", x.Pos(), fc.funcName(stack))
 			fc.insert(x.Pos(), fmt.Sprintf("%s := gcsimrt.Spawn(); ", v))
-			// after the Yield splice at Lbrace+1 (later seq at same offset sorts after)
-			fc.insert(lit.Body.Lbrace+1, fmt.Sprintf(" gcsimrt.TaskBegin(%s); defer gcsimrt.TaskEnd(%s);", v, v))
+			if isLit {
+				// after the Yield splice at Lbrace+1 (later seq at same offset sorts after)
+				fc.insert(lit.Body.Lbrace+1, fmt.Sprintf(" gcsimrt.TaskBegin(%s); defer gcsimrt.TaskEnd(%s);", v, v))
+			} else {
+				// go f(a, b) -> go gcsimrt.GoWrap(t, f)(a, b): callee and arguments are
+				// still evaluated by the go statement; the wrapper has f's exact type
+				fc.insert(x.Call.Fun.Pos(), fmt.Sprintf("gcsimrt.GoWrap(%s, ", v))
+				fc.insertCloser(x.Call.Fun.End(), ")")
+			}
 			fc.insertCloser(x.End(), "; gcsimrt.Spawned()")
 		case *ast.SendStmt:
 			if !opt.Yields {
@@ -265,11 +280,30 @@ func (fc *fileCtx) walk(opt Options) {
 				}
 			case *types.Chan:
 				if opt.Yields {
-					fc.fail(x.Pos(), "unsupported: range over channel")
+					fc.site("recv", x.Pos(), fc.funcName(stack))
+					fc.insert(x.X.Pos(), "gcsimrt.ChanIter(")
+					fc.insertCloser(x.X.End(), ")")
 				}
 			}
 		case *ast.CallExpr:
 			if opt.Yields {
+				if id, ok := x.Fun.(*ast.Ident); ok && len(x.Args) == 1 {
+					if b, isBuiltin := fc.info.Uses[id].(*types.Builtin); isBuiltin && b.Name() == "close" {
+						fc.site("sync", x.Pos(), fc.funcName(stack))
+						fc.replace(id.Pos(), id.End(), "gcsimrt.Close")
+					}
+				}
+				if sel, ok := x.Fun.(*ast.SelectorExpr); ok {
+					if f, ok := fc.info.Uses[sel.Sel].(*types.Func); ok && f.Pkg() != nil {
+						switch f.Pkg().Path() + "." + f.Name() {
+						case "time.After", "time.Tick", "time.NewTimer", "time.NewTicker", "time.AfterFunc", "time.Sleep",
+							"context.WithTimeout", "context.WithDeadline", "context.WithTimeoutCause", "context.WithDeadlineCause":
+							// go-critic has no clock today; a real timer under a simulated
+							// schedule would make runs depend on wall-clock time
+							fc.fail(x.Pos(), "unsupported: %s.%s (real clock; the simulator has no clock seam because go-critic reads none)", f.Pkg().Name(), f.Name())
+						}
+					}
+				}
 				if recv, typ, method, ok := fc.syncMethod(x); ok {
 					sel := x.Fun.(*ast.SelectorExpr)
 					fn := ""
